@@ -200,9 +200,17 @@ Print Assumptions C02_access_never_outside.
    rewrites exactly its n bytes *)
 Theorem C02_atomic_misaligned_traps : forall m a ea n,
   atomic_ea_width a = Some (ea, n) -> ea mod n <> 0 ->
-  (run m a = OTrap AUnaligned \/ run m a = OTrap AEither) /\ mem_after m a = m /\ touched m a = [].
+  (run m a = OTrap AUnaligned \/ run m a = OTrap AOob) /\ mem_after m a = m /\ touched m a = [].
 Proof. exact atomic_misaligned_traps. Qed.
 Print Assumptions C02_atomic_misaligned_traps.
+
+(* ... and an atomic access (load, store, read-modify-write, compare-exchange, notify, wait) whose effective address
+   plus width exceeds the size traps with the OUT-OF-BOUNDS error whatever its alignment, touching nothing *)
+Theorem C02_atomic_out_of_bounds_traps : forall m a ea n,
+  atomic_ea_width a = Some (ea, n) -> access_ok (v_size m) ea n = false ->
+  run m a = OTrap AOob /\ mem_after m a = m /\ touched m a = [].
+Proof. exact atomic_oob_traps. Qed.
+Print Assumptions C02_atomic_out_of_bounds_traps.
 
 Theorem C02_atomic_aligned_as_plain : forall m ea n bs,
   (ea mod n = 0 -> run m (AAtomLoad ea n) = run m (ALoad ea n)) /\
